@@ -165,7 +165,10 @@ def oracle(case):
             if i >= 0 and i + 2 != len(r):
                 bad = "readline result contains a CRLF before its end"
                 break
-            if not r.endswith(b"\r\n") and len(r) != rs and got != avail:
+            # cut by the size limit: `rs` bytes, or one less when the byte at the limit is a CR that is left
+            # for the next line (a CRLF is never cut in two)
+            held_cr = len(r) == rs - 1 and len(r) >= 1 and avail[len(got):len(got) + 1] == b"\r"
+            if not r.endswith(b"\r\n") and len(r) != rs and got != avail and not held_cr:
                 bad = "line without CRLF was cut neither by the size limit nor by the end of input"
                 break
         if nreads > rs + 1:
